@@ -253,6 +253,13 @@ theorem errActive_iff (sched : Nat → Ev) : ∀ k,
           have hjk : j ≠ k := by intro e; subst e; exact h1 hje
           exact ⟨j, by omega, hje, fun m a b => hq m a (by omega)⟩
 
+/-- CLEAR (like RUN) drops every GOSUB frame, trap frames included: no later RETURN can belong to a
+    handler entered before it; all traps are OFF, nothing is remembered, no error handler is active. -/
+theorem clear_resets (sched : Nat → Ev) (k : Nat) (h : sched k = .clear ∨ sched k = .runCmd) :
+    (stateAt sched (k + 1)).stack = [] ∧ (stateAt sched (k + 1)).suspendAll = false ∧
+    ∀ i, (stateAt sched (k + 1)).traps i = {} := by
+  rcases h with h | h <;> simp [stateAt, h, step]
+
 /-- **Only while a program is running.** -/
 theorem only_while_running (sched : Nat → Ev) (k : Nat) (h : (stateAt sched k).run = false) :
     firesAt sched k = [] := by
